@@ -41,19 +41,6 @@ Proof.
   destruct trysend_refuted as [sched [s [Hr Hn]]]. exists (w_cfg Drop), sched, s. repeat split; auto.
 Qed.
 
-(* The blocking forward cannot deadlock when the context graph is ranked (every cross-context forward goes to a
-   context with a larger index, i.e. the graph is acyclic up to renaming): whenever a context has a message or an
-   engine output waiting, some context can take a step. *)
-Theorem C26_no_deadlock_acyclic : forall cfg sched s c,
-  1 <= cap cfg -> ranked cfg -> run cfg init sched = Some s ->
-  c < n_ctx cfg -> has_work s c -> exists c', c' < n_ctx cfg /\ can_step cfg s c'.
-Proof.
-  intros cfg sched s c Hcap Hrk Hr Hc Hw.
-  apply (progress_from cfg s Hcap Hrk (run_outq_wf cfg sched init s (init_outq_wf cfg) Hr) (n_ctx cfg - c) c (Nat.le_refl _) Hc Hw).
-Qed.
-Example C26_no_deadlock_hyp : 1 <= cap (w_cfg Block) /\ ranked (w_cfg Block).
-Proof. split; [cbn; lia | apply rankedb_sound; reflexivity]. Qed.
-
 (* What the correspondence check replays on the implementation (polls, initiate, try_complete) is a schedule of this
    transition system. *)
 Theorem C26_macro_steps_are_schedules : forall cfg fuel ms s store os ls s' store',
